@@ -142,6 +142,16 @@ char* _ZN4QMapIj11QXmppPacketE5beginEv(char *self) { return 0; }
 char* _ZN4QMapIj11QXmppPacketE3endEv(char *self) { return 0; }
 uint8_t _ZNK4QMapIj11QXmppPacketE8iteratorneERKS2_(char *a, char *b) { return *(char**)a != *(char**)b; }
 uint8_t _ZNK4QMapIj11QXmppPacketE8iteratoreqERKS2_(char *a, char *b) { return *(char**)a == *(char**)b; }
+/* QRegularExpression (the JID pattern of BindManager::handleElement): over-approximation - whether the text matches is arbitrary,
+   the three captures of a match are arbitrary non-empty strings (C10 does not depend on the bound address) */
+struct c10_match { uint8_t has; };
+void _ZN18QRegularExpressionC1ERK7QString6QFlagsINS_13PatternOptionEE(char *self, char *pat, uint32_t opts) { *(char**)self = 0; }
+void _ZN18QRegularExpressionD1Ev(char *self) { }
+void _ZNK18QRegularExpression5matchERK7QStringiNS_9MatchTypeE6QFlagsINS_11MatchOptionEE(char *ret, char *self, char *subj, uint32_t off, uint32_t mt, uint32_t mo) {
+  struct c10_match *m = malloc(sizeof(struct c10_match)); ASSUME(m != 0); m->has = vp_bool(); *(struct c10_match**)ret = m; }
+uint8_t _ZNK23QRegularExpressionMatch8hasMatchEv(char *self) { return (*(struct c10_match**)self)->has; }
+void _ZNK23QRegularExpressionMatch8capturedEi(char *ret, char *self, uint32_t nth) { vp_sym_string_nonempty(ret, 2); }
+void _ZN23QRegularExpressionMatchD1Ev(char *self) { }
 /* index -> one of four concrete addresses (request-table model, see vp_iqmap_impl.h) */
 char* vp_pick4(uint32_t i, char *a, char *b, char *c, char *d) { return i == 0 ? a : i == 1 ? b : i == 2 ? c : d; }
 void vp_model_assert_cap(uint8_t ok) { ASSERT(ok, "C10 request-table model: capacity (3 entries) exceeded"); ASSUME(ok); }
